@@ -127,6 +127,8 @@ func c06LengthFormula(r *core.Run, ef *errFlow, pkgs []pkgCodec) {
 		}
 		var results []pathRes
 		applicable := true
+		nonLinear := ""
+		var nonLinearPos token.Pos
 		complete := core.EnumPaths(fn.Blocks[0], func(b *ssa.BasicBlock) bool { return false }, nil, 3000, func(pa core.Path, ended bool) {
 			last := pa.Blocks[len(pa.Blocks)-1]
 			ret, isRet := last.Instrs[len(last.Instrs)-1].(*ssa.Return)
@@ -235,13 +237,19 @@ func c06LengthFormula(r *core.Run, ef *errFlow, pkgs []pkgCodec) {
 				return
 			}
 			arg := writes[1].Call.Args[len(writes[1].Call.Args)-1]
+			if _, isField := lenTermKeyOfValue(fn, arg); isField {
+				applicable = false // the second field is a plain value of the package, not a computed length
+				return
+			}
 			declared := lin(arg, 0)
-			if !declared.ok || (len(declared.terms) == 0 && declared.c == 0) {
+			if declared.ok && len(declared.terms) == 0 && declared.c == 0 {
 				applicable = false
 				return
 			}
-			if _, isField := lenTermKeyOfValue(fn, arg); isField {
-				applicable = false // the second field is a plain value of the package, not a computed length
+			if !declared.ok {
+				// a computed prefix that is not const + Σ len(field): not a byte count of what follows
+				nonLinear = "the length prefix is computed as " + core.Expr(resolve(arg, 0)) + " (" + declared.why + "), which is not a byte count `const + Σ len(field)` of the fields written after it: for some values the declared length differs from the bytes that follow"
+				nonLinearPos = writes[1].Pos()
 				return
 			}
 			actual := linForm{terms: map[string]int{}, ok: true}
@@ -267,6 +275,10 @@ func c06LengthFormula(r *core.Run, ef *errFlow, pkgs []pkgCodec) {
 			}
 			results = append(results, pathRes{declared, actual, strings.Join(cs, ", "), writes[1].Pos()})
 		})
+		if nonLinear != "" && complete && applicable {
+			r.Bad("R06.7", pc.name+": declared length = bytes written after it", nonLinearPos, nonLinear)
+			continue
+		}
 		if !complete || !applicable || len(results) == 0 {
 			r.Note("R06.7 not applicable to %s (no computed length prefix, or shape outside the rule)", pc.name)
 			continue
